@@ -52,7 +52,85 @@ impl<const ROLE: u8> Cls<ROLE> for [u8; 3] { const HAS_DROP: bool = false; fn mk
 impl<const ROLE: u8> Cls<ROLE> for () { const HAS_DROP: bool = false; fn mk(_: u32) -> Self {} fn val(&self) -> u32 { 0 } fn expect(_: u32) -> u32 { 0 } }
 impl<const ROLE: u8> Cls<ROLE> for u64 { const HAS_DROP: bool = false; fn mk(v: u32) -> Self { v as u64 } fn val(&self) -> u32 { *self as u32 } fn expect(v: u32) -> u32 { v } }
 
+/// OVER-ALIGNED classes (the payload does not start right behind the count: data offset 32 / 16)
+#[repr(align(32))]
+struct W32(u32);
+impl<const ROLE: u8> Cls<ROLE> for W32 { const HAS_DROP: bool = false; fn mk(v: u32) -> Self { W32(v) } fn val(&self) -> u32 { self.0 } fn expect(v: u32) -> u32 { v } }
+#[repr(align(16))]
+struct W16d<const ROLE: u8>(u32, Box<u32>);
+impl<const ROLE: u8> Drop for W16d<ROLE> { fn drop(&mut self) { bump::<ROLE>() } }
+impl<const ROLE: u8> Cls<ROLE> for W16d<ROLE> { const HAS_DROP: bool = true; fn mk(v: u32) -> Self { W16d(v, Box::new(v)) } fn val(&self) -> u32 { self.0 } fn expect(v: u32) -> u32 { v } }
+
 fn reset() { HDROPS.with(|c| c.set(0)); EDROPS.with(|c| c.set(0)); }
+
+/// `wr <T> <kind> <len>`: build uninitialised, write every slot, read back through `as_mut_ptr`, after `assume_init*` through
+/// the initialised handle, then drop; the allocator's view of the block (requested layout = released layout, freed once).
+/// kind: arc (Arc::new_uninit) | uniq (UniqueArc::new_uninit) | slice (UniqueArc::new_uninit_slice(len)) | hs
+/// (UniqueArc::from_header_and_uninit_slice(u32 header, len)) | arcslice (Arc::new_uninit_slice(len))
+fn run_wr<T: Cls<1>>(kind: &str, len: usize) -> String {
+    use harness::{set_recording, take_events, Ev};
+    reset();
+    take_events();
+    set_recording(true);
+    let r = catch_unwind(AssertUnwindSafe(|| -> String {
+        match kind {
+            "arc" => {
+                let mut a: Arc<MaybeUninit<T>> = Arc::new_uninit();
+                a.write(T::mk(77));
+                let p = a.as_mut_ptr() as *const T;
+                let seen_raw = unsafe { (*p).val() };
+                let a: Arc<T> = unsafe { a.assume_init() };
+                format!("val={} raw={} ptr_ok={}", a.val(), seen_raw, (p == &*a as *const T) as u8)
+            }
+            "uniq" => {
+                let mut u: UniqueArc<MaybeUninit<T>> = UniqueArc::new_uninit();
+                u.write(T::mk(77));
+                let p = u.as_mut_ptr() as *const T;
+                let seen_raw = unsafe { (*p).val() };
+                let u: UniqueArc<T> = unsafe { UniqueArc::assume_init(u) };
+                format!("val={} raw={} ptr_ok={}", u.val(), seen_raw, (p == &*u as *const T) as u8)
+            }
+            "slice" => {
+                let mut u: UniqueArc<[MaybeUninit<T>]> = UniqueArc::new_uninit_slice(len);
+                for (i, s) in u.iter_mut().enumerate() { s.write(T::mk(70 + i as u32)); }
+                let u: UniqueArc<[T]> = unsafe { UniqueArc::assume_init_slice(u) };
+                let ok = u.iter().enumerate().all(|(i, x)| x.val() == T::expect(70 + i as u32)) && u.len() == len;
+                format!("val={} raw={} ptr_ok={}", if ok { T::expect(77) } else { 0xdead }, T::expect(77), 1)
+            }
+            "arcslice" => {
+                let a: Arc<[MaybeUninit<T>]> = Arc::new_uninit_slice(len);
+                let n = a.len();
+                format!("val={} raw={} ptr_ok={}", if n == len { T::expect(77) } else { 0xdead }, T::expect(77), 1)
+            }
+            _ => {
+                let mut u = UniqueArc::from_header_and_uninit_slice(5u32, len);
+                for (i, s) in u.slice.iter_mut().enumerate() { s.write(T::mk(70 + i as u32)); }
+                let u = unsafe { u.assume_init_slice_with_header() };
+                let ok = u.header == 5 && u.slice.len() == len && u.slice.iter().enumerate().all(|(i, x)| x.val() == T::expect(70 + i as u32));
+                format!("val={} raw={} ptr_ok={}", if ok { T::expect(77) } else { 0xdead }, T::expect(77), 1)
+            }
+        }
+    }));
+    set_recording(false);
+    let evs = take_events();
+    let mut blocks: Vec<(usize, usize, usize, i32, bool)> = Vec::new();
+    for e in &evs {
+        match e {
+            Ev::Alloc(i, sz, al) if *al >= 8 => blocks.push((*i, *sz, *al, 0, true)),
+            Ev::Dealloc(i, sz, al) => { for b in blocks.iter_mut() { if b.0 == *i { b.3 += 1; if (b.1, b.2) != (*sz, *al) { b.4 = false; } } } }
+            Ev::DoubleFree(i, _, _) => { for b in blocks.iter_mut() { if b.0 == *i { b.3 += 1; } } }
+            _ => {}
+        }
+    }
+    let never = blocks.iter().filter(|b| b.3 == 0).count();
+    let twice = blocks.iter().filter(|b| b.3 > 1).count();
+    let badlay = blocks.iter().filter(|b| !b.4).count();
+    let minalign = blocks.iter().map(|b| b.2).min().unwrap_or(0);
+    match r {
+        Ok(s) => format!("st=ok {} want={} never_freed={} freed_twice={} wrong_layout={} block_align={} type_align={} edrop={}", s, T::expect(77), never, twice, badlay, minalign, std::mem::align_of::<T>(), ed()),
+        Err(_) => format!("st=panic want={} never_freed={} freed_twice={} wrong_layout={} block_align={} type_align={} edrop={}", T::expect(77), never, twice, badlay, minalign, std::mem::align_of::<T>(), ed()),
+    }
+}
 
 fn run_hs<H: Cls<0>, T: Cls<1>>(len: usize, mask: u64, fin: &str) -> String {
     reset();
@@ -111,6 +189,7 @@ macro_rules! with_t {
         match $name {
             "u32" => $f::<u32>($($args),*), "b3" => $f::<[u8; 3]>($($args),*), "u64" => $f::<u64>($($args),*),
             "loud" => $f::<Loud<1>>($($args),*), "zd" => $f::<Zd<1>>($($args),*), "unit" => $f::<()>($($args),*),
+            "w32" => $f::<W32>($($args),*), "w16d" => $f::<W16d<1>>($($args),*),
             _ => "st=badcls".to_string(),
         }
     };
@@ -238,6 +317,7 @@ fn main() {
             "sl" if f.len() == 5 => with_t!(f[1], run_sl, p(2), p(3) == 1, p(4)),
             "un" if f.len() == 3 => with_t!(f[1], run_un, p(2) == 1),
             "dp" if f.len() == 3 => run_dp(f[1], f[2]),
+            "wr" if f.len() == 4 => { let n: usize = f[3].parse().unwrap_or(0); with_t!(f[1], run_wr, f[2], n) }
             _ => "st=badline".to_string(),
         };
         writeln!(out, "{}", r).unwrap();
